@@ -13,10 +13,12 @@ THEOREMS = ["QExPy.C07_poly_model", "QExPy.C07_lin", "QExPy.C07_quad", "QExPy.C0
             "QExPy.C07_band", "QExPy.C07_band_all", "QExPy.C07_band_poly", "QExPy.C07_band_preset", "QExPy.C07_reversed_fold_witness", "QExPy.C07_grad_exact",
             "QExPy.C01_quadratic_form", "QExPy.C03_diff_correct"]
 RULE = ("the C06 fits on the whole data set (every pre-set model, polynomial degrees 1-5, three user "
-        "models, every sigma pattern, every data-passing form), 4 evaluation points each, evaluated "
+        "models, every sigma pattern incl. sigma_y with exact zeros, every data-passing form, 60 % "
+        "rescaled to other units by 1e-12..1e12, nearly uncorrelated parameters), 4 evaluation "
+        "points each, evaluated "
         "as scalars, as a list and as an array; fit_function value/uncertainty, residuals (value "
         "and uncertainty), chi-squared, registered correlations and the matrix parsed from "
-        "str(result) vs the Lean FitResult model run on the implementation's own parameters and "
+        "str(result) (3 decimals and 17 digits) vs the Lean FitResult model run on the implementation's own parameters and "
         "covariance (tolerance: FB running error bound); non-trivial = >= 2 parameters and a "
         "non-zero off-diagonal covariance; distinct by hash of the data set")
 ASSUMPTIONS = ["theorems are over the reals; binary64 rounding compared under the FB running error "
